@@ -7,7 +7,9 @@ import Tickit.Gen.WinFocusSrc
   Engine `focus` (C15).  Operations and observation format: see harness/focus.c.
   The model observation is printed from the model state; the specification verdict is `cursorSpec` evaluated on the
   tree *parsed from the implementation's observation* and compared with the implementation's terminal cursor
-  (after every `flush`), plus the order clauses on the implementation's focus-event log (after every `focus`).
+  (after every `flush`; in the `newmock` configuration that is what the library's mock terminal reports), plus the order
+  clauses on the implementation's focus-event log (after every `focus`), plus "the root window has the terminal's size"
+  after every `termsize`.
 -/
 namespace Tickit.Driver.FocusEngine
 open Tickit Tickit.Driver Tickit.WinTree Tickit.WinFocus
@@ -18,6 +20,9 @@ structure St where
   live : Bool := false                    -- a history has begun
   origParent : Array (Option Id) := #[]   -- parent at creation (survives `close`, which clears `parent`)
   dead : Bool := false                    -- the model reached `ub`: the rest of the history is not modelled
+  mock : Bool := false                    -- the history runs on the library's mock terminal (`newmock`)
+  tl : Int := 0                           -- the terminal's size (`tickit_term_get_size`), which the root window follows
+  tc : Int := 0
   prev : String := ""                     -- the implementation's previous observation line
 deriving Inhabited
 
@@ -244,7 +249,7 @@ def specFocus (before after : ImplObs) (win : Id) : String :=
     Proof/WinFocusReq.lean / WinFocusHist.lean. -/
 def keepsFocus (op : String) : Bool :=
   ["flush", "raise", "raisefront", "lower", "lowerback", "curpos", "curvis", "curshape", "curblink", "notify", "expose",
-   "exposer", "geom", "repos", "resize", "ref"].contains op
+   "exposer", "geom", "repos", "resize", "ref", "termsize"].contains op
 
 /-- The focus did not move silently: the focus chain from the root and the `is_focused` flags along it are what they
     were.  Evaluated on the implementation's observations before and after the operation. -/
@@ -310,8 +315,27 @@ def modelOp (st : St) (ts : List String) : Out :=
   | ["flush"] =>
     if !liveId st 0 then .bad else
     match flush fx st.tree with
-    | .ok o => .ok { st with tree := o.tree, term := st.term.applyAll o.calls } [] o.exposed o.calls
+    | .ok o =>
+      if st.mock then
+        -- the mock terminal logs only the goto (clamped to its screen); control changes are read back from its state
+        let cs := o.calls.map (TermCall.onMock st.tl st.tc)
+        .ok { st with tree := o.tree, term := st.term.applyAll cs } [] o.exposed
+          (cs.filter fun c => match c with | .goto _ _ => true | _ => false)
+      else .ok { st with tree := o.tree, term := st.term.applyAll o.calls } [] o.exposed o.calls
     | .ub w => .ub w
+  | ["termsize", ls, cs] =>
+    match ls.toInt?, cs.toInt? with
+    | some l, some c =>
+      if l < 1 ∨ c < 1 ∨ l > 200 ∨ c > 200 ∨ !liveId st 0 then .bad
+      else
+        -- `tickit_term_set_size` fires the resize event only when the size changes; `tickit_mockterm_resize` clamps its
+        -- cursor position in any case
+        let term := if st.mock then st.term.mockResize l c else st.term
+        if l = st.tl ∧ c = st.tc then .ok { st with term := term } [] [] []
+        else match termResize fx st.tree l c with
+          | .ok t => .ok { st with tree := t, term := term, tl := l, tc := c } [] [] []
+          | .ub w => .ub w
+    | _, _ => .bad
   | "win" :: rest =>
     match ints? rest with
     | some [id, par, t, l, n, c, flags] =>
@@ -372,55 +396,73 @@ def modelOp (st : St) (ts : List String) : Out :=
     | _, _ => .bad
   | _ => .bad
 
+/-- Every operation but the two that begin a history. -/
+def stepOp (st : St) (ts : List String) (impl : String) : St × String × String :=
+  if !st.live then (st, "bad-op", "")
+  else if st.dead then (st, "UB (earlier in this history)", "")
+  else
+    match modelOp st ts with
+    | .bad => (st, "bad-op", "")
+    | .ub w => ({ st with dead := true }, "UB " ++ w, "")
+    | .ok st' evs exposed calls =>
+      let m := showState st' evs exposed calls
+      let sv :=
+        match ts with
+        | ["flush"] =>
+          (match parseImpl impl with
+           | some o => specFlush o o.calls
+           | none => if impl.startsWith "ok" then "unparsable implementation observation" else "")
+        | ["focus", ids] =>
+          (match parseImpl st.prev, parseImpl impl, ids.toNat? with
+           | some b, some a, some id => specFocus b a id
+           | _, _, _ => if impl.startsWith "ok" then "unparsable implementation observation" else "")
+        | ["termsize", ls, cs] =>
+          -- the root window follows the terminal (absolute positions are terminal positions only then)
+          (match parseImpl impl, ls.toInt?, cs.toInt? with
+           | some o, some l, some c =>
+             (match o.tree.wins[0]? with
+              | some r =>
+                if r.rect = ⟨0, 0, l, c⟩ then ""
+                else s!"the terminal is {l} x {c} but the root window is {r.rect.lines} x {r.rect.cols} at {r.rect.top},{r.rect.left}"
+              | none => "no root window")
+           | _, _, _ => if impl.startsWith "ok" then "unparsable implementation observation" else "")
+        | _ => ""
+      let sv := if sv ≠ "" then sv else
+        match ts with
+        | op :: _ =>
+          if keepsFocus op then
+            (match parseImpl st.prev, parseImpl impl with
+             | some b, some a => specKeepsFocus op b a
+             | _, _ => "")
+          else ""
+        | [] => ""
+      -- the hypothesis of the theorems, evaluated on every tree the real library is observed in
+      let sv := if sv ≠ "" then sv else
+        match parseImpl impl with
+        | some o =>
+          if !wfB o.tree then "the observed tree violates the store invariant wfB (parent/children consistency, chain_visible)"
+          else if !good15B o.tree then "the observed tree violates the structural invariants of Good15 (child lists, root window)"
+          else ""
+        | none => ""
+      ({ st' with prev := impl }, m, sv)
+
 def step (st : St) (ts : List String) (impl : String) : St × String × String :=
   match ts with
-  | ["new", ls, cs] =>
-    match ls.toInt?, cs.toInt? with
-    | some l, some c =>
-      if l < 1 ∨ c < 1 ∨ l > 200 ∨ c > 200 then ({}, "bad-op", "")
-      else
-        let st : St := { tree := newRoot l c, live := true, origParent := #[none] }
-        ({ st with prev := impl }, showState st [] [] [], "")
-    | _, _ => ({}, "bad-op", "")
-  | "new" :: _ => ({}, "bad-op", "")
-  | _ =>
-    if !st.live then (st, "bad-op", "")
-    else if st.dead then (st, "UB (earlier in this history)", "")
-    else
-      match modelOp st ts with
-      | .bad => (st, "bad-op", "")
-      | .ub w => ({ st with dead := true }, "UB " ++ w, "")
-      | .ok st' evs exposed calls =>
-        let m := showState st' evs exposed calls
-        let sv :=
-          match ts with
-          | ["flush"] =>
-            (match parseImpl impl with
-             | some o => specFlush o o.calls
-             | none => if impl.startsWith "ok" then "unparsable implementation observation" else "")
-          | ["focus", ids] =>
-            (match parseImpl st.prev, parseImpl impl, ids.toNat? with
-             | some b, some a, some id => specFocus b a id
-             | _, _, _ => if impl.startsWith "ok" then "unparsable implementation observation" else "")
-          | _ => ""
-        let sv := if sv ≠ "" then sv else
-          match ts with
-          | op :: _ =>
-            if keepsFocus op then
-              (match parseImpl st.prev, parseImpl impl with
-               | some b, some a => specKeepsFocus op b a
-               | _, _ => "")
-            else ""
-          | [] => ""
-        -- the hypothesis of the theorems, evaluated on every tree the real library is observed in
-        let sv := if sv ≠ "" then sv else
-          match parseImpl impl with
-          | some o =>
-            if !wfB o.tree then "the observed tree violates the store invariant wfB (parent/children consistency, chain_visible)"
-            else if !good15B o.tree then "the observed tree violates the structural invariants of Good15 (child lists, root window)"
-            else ""
-          | none => ""
-        ({ st' with prev := impl }, m, sv)
+  | nw :: rest =>
+    if nw = "new" ∨ nw = "newmock" then
+      match rest with
+      | [ls, cs] =>
+        match ls.toInt?, cs.toInt? with
+        | some l, some c =>
+          if l < 1 ∨ c < 1 ∨ l > 200 ∨ c > 200 then ({}, "bad-op", "")
+          else
+            let st : St := { tree := newRoot l c, live := true, origParent := #[none], tl := l, tc := c,
+                             mock := nw = "newmock", term := if nw = "newmock" then TermCursor.mockInit else {} }
+            ({ st with prev := impl }, showState st [] [] [], "")
+        | _, _ => ({}, "bad-op", "")
+      | _ => ({}, "bad-op", "")
+    else stepOp st ts impl
+  | [] => stepOp st ts impl
 
 def engine : Engine := { σ := St, init := {}, step := step }
 
